@@ -270,7 +270,7 @@ func runC15(r *vhlib.Run) {
 		valid := assemble(chunks, idxOpts{}, "XF\x00", meta.FinalStream)
 		c15Check(r, m, valid, "valid")
 		clone := func() []xchunk { return append([]xchunk{}, chunks...) }
-		for t := 0; t < 27; t++ {
+		for t := 0; t < 31; t++ {
 			cs := clone()
 			io_ := idxOpts{}
 			magic, fmode := "XF\x00", meta.FinalStream
@@ -391,6 +391,37 @@ func runC15(r *vhlib.Run) {
 			case 23: // random mutation of the valid stream
 				kind = "mutated"
 				out = gen.Mutate(rng, valid)
+			case 27, 28: // every value of the footer's flag byte x every way of ending the footer block
+				kind = "footer-flags-x-finalmode"
+				// (all 24 combinations of the listed flag values and the three modes within 24 base streams)
+				magic = "XF" + string([]byte{[]byte{1, 2, 3, 4, 0x10, 0x80, 0xff, byte(rng.Intn(256))}[i%8]})
+				fmode = []meta.FinalMode{meta.FinalNil, meta.FinalMeta, meta.FinalStream}[(i/8)%3]
+				if t == 28 {
+					magic = "XF\x00"
+					fmode = []meta.FinalMode{meta.FinalNil, meta.FinalMeta}[rng.Intn(2)]
+				}
+			case 29, 30: // a complete stream (XFLATE or plain DEFLATE) followed by a complete XFLATE stream
+				kind = "stream-after-stream"
+				var first []byte
+				if t == 29 {
+					var fc []xchunk
+					for k := 0; k < 1+rng.Intn(3); k++ {
+						d := vhlib.RandBytes(rng, rng.Intn(40))
+						c := deflateChunk(d, 6)
+						fc = append(fc, xchunk{Comp: c, CSize: int64(len(c)), RSize: int64(len(d))})
+					}
+					first = assemble(fc, idxOpts{}, "XF\x00", meta.FinalStream)
+					if rng.Intn(3) == 0 {
+						first = valid
+					}
+				} else {
+					var bb bytes.Buffer
+					zw, _ := stdflate.NewWriter(&bb, 6)
+					zw.Write(vhlib.RandBytes(rng, rng.Intn(50)))
+					zw.Close()
+					first = bb.Bytes()
+				}
+				out = append(append([]byte{}, first...), valid...)
 			}
 			if out == nil {
 				out = assemble(cs, io_, magic, fmode)
